@@ -72,6 +72,16 @@ type trialInput struct {
 	AsgRules     []int   `json:"asg_rules"`
 	AsgLabels    []kv    `json:"asg_labels"`
 	AsgLabelsNil bool    `json:"asg_labels_nil"`
+	// an assignment of the same batch that createTrials turns into a trial first, on the same in-memory experiment
+	// (nil: none); the trial built for the assignment above must not depend on it
+	Prev *prevAsg `json:"prev,omitempty"`
+}
+
+type prevAsg struct {
+	Name   string `json:"name"`
+	Params []kv   `json:"params"`
+	Rules  []int  `json:"rules"`
+	Labels []kv   `json:"labels"`
 }
 
 type c02Input struct {
